@@ -112,7 +112,19 @@ theorem C16_overwrite_on_pinned : ∃ acts, (run Skeleton.pinned init acts).map
   ⟨[.linkCheck, .setErrEnter 10 7, .setErrClose 10, .setErrStore 10,
     .setErrEnter 11 8, .setErrClose 11, .setErrStore 11, .linkWake, .linkReturn], by decide⟩
 
+/-- `C16_prompt` counts M2's `setErrEnter / setErrStore / setErrClose` as steps that are always enabled for
+    the thread inside `setErr`.  In the source that needs `setErr` to wait for nobody: the only lock it takes
+    is its own condition variable's (whose critical sections run no foreign code), it has no channel
+    operation, select or wait, and the failing read loop reaches it without waiting either (checked
+    against the regenerated skeleton).  A `setErr` that first took e.g. the registry's remotes lock would
+    hang for as long as application code sits in the enumeration callback — and `Link` with it. -/
+theorem C16_setErr_waits_for_nobody :
+    Skeleton.current.seOnlyOwnLock = true ∧ Skeleton.current.seStoreUnderLock = true ∧
+    Skeleton.current.reqLoopBlocksOnlyOnRead = true ∧ Skeleton.current.respLoopBlocksOnlyOnRead = true := by decide
+
 end Panrpc.Ep
+
+#print axioms Panrpc.Ep.C16_setErr_waits_for_nobody
 
 #print axioms Panrpc.Ep.C16_blocks_while_healthy
 #print axioms Panrpc.Ep.C16_returns_first
